@@ -43,11 +43,14 @@ func asKind(kind, s string) (interface{}, bool) {
 	inU := func(hi uint64) bool {
 		return isInt && r.Sign() >= 0 && r.Cmp(new(big.Rat).SetInt(new(big.Int).SetUint64(hi))) <= 0
 	}
+	// a float64 / json.Number carries every decimal of at most 15 significant digits (it round-trips through the
+	// shortest representation); float32 and the integer kinds carry a value only when it is exactly representable
+	sig := len(strings.TrimLeft(strings.ReplaceAll(strings.TrimPrefix(s, "-"), ".", ""), "0"))
 	switch kind {
 	case "float64":
-		return f, exact && math.Abs(f) <= 1<<53
+		return f, (exact || sig <= 15) && math.Abs(f) <= 1<<53
 	case "jsonNumber":
-		return json.Number(s), exact && math.Abs(f) <= 1<<53
+		return json.Number(s), (exact || sig <= 15) && math.Abs(f) <= 1<<53
 	case "float32":
 		return float32(f), exact && float64(float32(f)) == f
 	case "int":
@@ -133,8 +136,9 @@ func driveNumeric(args []string) error {
 			return nil
 		}
 		br, _ := new(big.Rat).SetString(bs)
-		b, exact := br.Float64()
-		if !exact || math.Abs(b) > 1<<53 {
+		b, bexact := br.Float64()
+		// the constraint is the decimal written in the schema (<= 15 significant digits, or exactly a float64), carried by a float64
+		if bsig := len(strings.TrimLeft(strings.ReplaceAll(strings.TrimPrefix(bs, "-"), ".", ""), "0")); (!bexact && bsig > 15) || math.Abs(b) > 1<<53 {
 			return nil
 		}
 		xr, _ := new(big.Rat).SetString(xs)
